@@ -471,6 +471,13 @@ def extract_fusion_engine_log(input_path, output_path=None, warn_on_gaps=True, r
         _logger.debug("Saving index file as '%s'." % index_path)
         index_builder.save(FileIndex.get_path(output_path), output_path)
 
+    # If nothing was extracted, no output file exists: do not leave the index of an earlier output with the same name
+    # behind either.
+    if reader.valid_count == 0 and not in_place:
+        stale_index_path = FileIndex.get_path(output_path)
+        if os.path.exists(stale_index_path):
+            os.remove(stale_index_path)
+
     if return_counts:
         return reader.valid_count, reader.message_counts
     else:
